@@ -693,8 +693,11 @@ class SolveNewmark(_BaseODE):
         if self.nonlin_terms:
             d[self.nonrf, -1] = u_1
             self.z = {}
+            # as in the integration loop, the functions get the
+            # non-residual-flexibility equations only
+            D = d[self.nonrf]
             for key, (func, T, args) in self.nl_dct.items():
-                z0 = func(d, 0, h, **args)
+                z0 = func(D, 0, h, **args)
                 z = np.empty((z0.shape[0], nt))
                 z[:, 0] = z0
                 self.z[key] = z
